@@ -55,6 +55,77 @@ class Func:
     return '<Func %s>' % self.fq
 
 
+def _normalise(tree):
+  """Behaviour-preserving normal form applied to every parsed module before any rule sees it:
+
+  `T = E` immediately followed by `return T`, where the local T occurs nowhere else in the function, becomes
+  `return E` (kept at the position of the assignment).  Rules therefore see the same tree whether or not a result
+  was given a name first; nothing else is rewritten."""
+  for fn in [n for n in ast.walk(tree) if isinstance(n, astu.FUNC_TYPES)]:
+    counts = {}
+
+    def count(node, top):
+      """occurrences of names in `top`'s own scope; a nested function contributes only its free names"""
+      for ch in ast.iter_child_nodes(node):
+        if isinstance(ch, astu.FUNC_TYPES + (ast.Lambda,)) and ch is not top:
+          local = set(astu.params(ch)) if not isinstance(ch, ast.Lambda) else {a.arg for a in ch.args.args}
+          local |= {x.id for x in ast.walk(ch) if isinstance(x, ast.Name) and isinstance(x.ctx, ast.Store)}
+          for x in ast.walk(ch):
+            if isinstance(x, ast.Name) and x.id not in local:
+              counts[x.id] = counts.get(x.id, 0) + 1
+            elif isinstance(x, (ast.Global, ast.Nonlocal)):
+              for nm in x.names:
+                counts[nm] = counts.get(nm, 0) + 10
+          continue
+        if isinstance(ch, ast.Name):
+          counts[ch.id] = counts.get(ch.id, 0) + 1
+        elif isinstance(ch, (ast.Global, ast.Nonlocal)):
+          for nm in ch.names:
+            counts[nm] = counts.get(nm, 0) + 10
+        count(ch, top)
+    count(fn, fn)
+    params = set(astu.params(fn))
+
+    def blocks(root):
+      stack = [root]
+      while stack:
+        node = stack.pop()
+        for fld in ('body', 'orelse', 'finalbody'):
+          blk = getattr(node, fld, None)
+          if isinstance(blk, list):
+            yield blk
+            for st in blk:
+              if isinstance(st, ast.stmt) and not isinstance(st, astu.FUNC_TYPES + (ast.ClassDef,)):
+                stack.append(st)
+        for h in getattr(node, 'handlers', []) or []:
+          stack.append(h)
+
+    def is_pair(a, b):
+      return isinstance(a, ast.Assign) and len(a.targets) == 1 and isinstance(a.targets[0], ast.Name) and isinstance(b, ast.Return) and \
+          isinstance(b.value, ast.Name) and b.value.id == a.targets[0].id and a.targets[0].id not in params
+    pairs = {}
+    for blk in blocks(fn):
+      for i in range(len(blk) - 1):
+        if is_pair(blk[i], blk[i + 1]):
+          # the temporary may not occur inside its own defining expression
+          if not any(isinstance(x, ast.Name) and x.id == blk[i].targets[0].id for x in ast.walk(blk[i].value)):
+            pairs[blk[i].targets[0].id] = pairs.get(blk[i].targets[0].id, 0) + 1
+    ok_names = {t for t, k in pairs.items() if counts.get(t) == 2 * k}
+    if not ok_names:
+      continue
+    for blk in blocks(fn):
+      i = 0
+      while i + 1 < len(blk):
+        a, b = blk[i], blk[i + 1]
+        if is_pair(a, b) and a.targets[0].id in ok_names:
+          new = ast.Return(value=a.value)
+          ast.copy_location(new, a)
+          new.end_lineno, new.end_col_offset = getattr(b, 'end_lineno', None), getattr(b, 'end_col_offset', None)
+          blk[i:i + 2] = [new]
+          continue
+        i += 1
+
+
 class Mod:
 
   def __init__(self, repo, rel, path, text=None):
@@ -71,6 +142,7 @@ class Mod:
       self._tree = ast.parse(self.src, filename=path)
     except SyntaxError as e:
       raise AnalysisError('unparsable file %s: %s' % (rel, e))
+    _normalise(self._tree)
     self._import_nodes = astu.set_parents(self._tree)
     self.dotted = rel[:-3].replace('/', '.')
     if self.dotted.endswith('.__init__'):
